@@ -476,6 +476,29 @@ def run(ctx):
     ctx.check('C12.P1', ok, ai.name, 'AddIn:append+out-edge', ai.loc, 'AddIn appends and registers the out-edge')
     ctx.floor('C12.P1', 10)
 
+    # ---- default targets ---------------------------------------------------------------------------------
+    R('C12.D1', 'G', 'without a default statement ninja builds every output that no statement names as an input: State::RootNodes '
+      'collects an output exactly when it has no out-edge (validations do not count as uses), over all outputs of all edges')
+    rn = prog.fn('State::RootNodes')
+    rp = [e for e in rn.events('call') if lastname(e.get('name') or '').split('<')[0] in ('push_back', 'emplace_back', 'insert') and
+          'Node' in (e.get('name') or '') and not mentions_var(e.get('recv'), 'err')]
+    ctx.check('C12.D1', len(rp) >= 1, rn.name, 'roots:none-collected', rn.loc, 'RootNodes collects nodes')
+    for e in rp:
+        facts = rn.facts_at(e)
+        used = lambda a: mentions_field(a, 'Node::out_edges_') or mentions_call(a, 'Node::out_edges')
+        ok = any(p_ is True and used(a) and 'empty' in dstr(a) for k_, (p_, a) in facts.items()) or \
+            any(p_ is False and used(a) and ('size' in dstr(a) or 'empty' not in dstr(a)) for k_, (p_, a) in facts.items())
+        ctx.check('C12.D1', ok, rn.name, 'roots:not-by-out-edges', rn.where(e), 'an output is a root when it has no out-edge')
+        other = [k_ for k_, (p_, a) in facts.items() if mentions_field(a, 'Node::validation_out_edges_') or mentions_call(a, 'Node::validation_out_edges') or
+                 mentions_field(a, 'Node::in_edge_') or mentions_field(a, 'Node::dirty_')]
+        ctx.check('C12.D1', not other, rn.name, 'roots:extra-condition', rn.where(e),
+                  'nothing else (being named as a validation, ...) keeps an output from being a root: %s' % other[:2])
+    full_e = [l for l in loops_over(rn, 'State::edges_')]
+    full_o = [l for l in loops_over(rn, 'Edge::outputs_')]
+    ctx.check('C12.D1', len(full_e) == 1 and full_e[0]['full'] and len(full_o) == 1 and full_o[0]['full'], rn.name, 'roots:partial-walk', rn.loc,
+              'every output of every edge is considered')
+    ctx.floor('C12.D1', 4)
+
     # ---- CN: canonicalise before intern ------------------------------------------------------------
     R('C12.CN', 'CN', 'every path from manifest text or the command line is canonicalised before it '
       'becomes a node identity; node identities never come from shell-escaped lookups')
